@@ -295,6 +295,7 @@ static ares_status_t config_search(ares_sysconfig_t *sysconfig, const char *str,
   static const char delims[]  = ", ";
   char            **domains  = NULL;
   size_t            ndomains = 0;
+  size_t            i;
 
   /* A value without a single domain in it (empty, or nothing but separators)
    * is a malformed entry.  Ignore it like any other line we can't make sense
@@ -302,6 +303,15 @@ static ares_status_t config_search(ares_sysconfig_t *sysconfig, const char *str,
    * out of memory condition as that aborts reading the system configuration. */
   if (str[strspn(str, delims)] == 0) {
     return ARES_SUCCESS;
+  }
+
+  /* Likewise a value with a byte that cannot be part of a domain list (the
+   * LOCALDOMAIN variable is not vetted like a configuration line is):
+   * ares_strsplit() returns NULL for it too. */
+  for (i = 0; str[i] != 0; i++) {
+    if (!ares_isprint(str[i])) {
+      return ARES_SUCCESS;
+    }
   }
 
   domains = ares_strsplit(str, delims, &ndomains);
@@ -316,7 +326,6 @@ static ares_status_t config_search(ares_sysconfig_t *sysconfig, const char *str,
 
   /* Truncate if necessary */
   if (max_domains && sysconfig->ndomains > max_domains) {
-    size_t i;
     for (i = max_domains; i < sysconfig->ndomains; i++) {
       ares_free(sysconfig->domains[i]);
       sysconfig->domains[i] = NULL;
